@@ -107,13 +107,41 @@ def run_wiring(ctx, case):
     return Verdict.held({"wiring_applications": 2 * n})
 
 
+def run_concurrent(ctx, case):
+    """fresh race-instrumented processes whose very first use of the library comes from 64 goroutines at once"""
+    log = os.path.join(ctx.newdir("conc"), "log.txt")
+    reports = 0
+    for k in range(case["processes"]):
+        r = core.run([ctx.harness_race, "concurrent", str(case["seed"] + k), "0", log, ctx.fixture if hasattr(ctx, "fixture") else "/dev/null"], cwd=ctx.root,
+                     env=core.scratch_env({"GORACE": "halt_on_error=1"}), timeout=600)
+        if r.timed_out:
+            return Verdict.inconclusive("watchdog")
+        if "WARNING: DATA RACE" in r.err or "concurrent map" in r.err:
+            frames = [l.strip() for l in r.err.splitlines() if "template_funcs" in l][:6]
+            return Verdict.violated("the function library is not safe on concurrent first use: %s" % ("data race" if "DATA RACE" in r.err else "runtime crash"),
+                                    {"frames": frames, "stderr_tail": r.err[-1500:]}, ["concurrent-first-use"])
+        if r.exit != 0:
+            return Verdict.violated("template function crashed the process on concurrent first use (exit %s)" % r.exit, r.brief(), ["concurrent-first-use"])
+        try:
+            if json.loads(r.out.strip().splitlines()[-1]).get("concurrent_bad"):
+                return Verdict.violated("wrong results on concurrent first use of the function library", {"out": r.out[-500:]}, ["concurrent-first-use"])
+        except Exception:
+            return Verdict.inconclusive("unparsable output of the concurrent probe: " + r.out[-200:])
+        reports += 1
+    ctx.count("concurrent_first_use_processes", reports)
+    return Verdict.held({"processes": reports, "goroutines_each": 64}, tags=["concurrent-first-use"])
+
+
 def eval_case(ctx, case):
+    if case["kind"] == "concurrent":
+        return run_concurrent(ctx, case)
     return run_wiring(ctx, case) if case["kind"] == "wiring" else run_batch(ctx, case)
 
 
 def body(ctx, replay=None):
     core.build_mockery(ctx)
     ctx.harness = core.build_harness(ctx, "funcs")
+    ctx.harness_race = core.build_harness(ctx, "funcs", race=True)
     ctx.rule = ("each case = one child process applying `count` generated (function, argument tuple) applications through text/template with the real "
                 "FuncMap and comparing with independent references (strings/regexp/filepath/unicode/math namesakes; machine-int folds); argument "
                 "classes: empty, ASCII, multi-byte, invalid UTF-8, separators at either end/doubled, very long, negative/zero/huge ints, zero divisors; "
@@ -125,6 +153,7 @@ def body(ctx, replay=None):
     else:
         nb, cnt = (16, 10000) if ctx.tier == "quick" else (64, 32000)
         cases = [{"kind": "batch", "seed": ctx.seed * 100003 + i, "count": cnt} for i in range(nb)]
+        cases += [{"kind": "concurrent", "seed": ctx.seed * 13, "processes": 3 if ctx.tier == "quick" else 12}]
         cases += [{"kind": "wiring", "seed": ctx.seed * 7 + j, "count": 200} for j in range(1 if ctx.tier == "quick" else 6)]
     ctx.run_cases(cases, eval_case)
     return ctx.finish()
